@@ -9,7 +9,7 @@ Separate Extraction
   LexModel.parse_program_data LexModel.detect_unit
   MatchModel.matchCommand
   FmtModel.int2str FmtModel.result_error
-  ParserModel.scpi_input ParserModel.scpi_parse ParserModel.ctx ParserModel.op ParserModel.event
+  ParserModel.scpi_input ParserModel.scpi_parse ParserModel.ctx ParserModel.op ParserModel.event ParserModel.native_le
   RegModel.push RegModel.pop RegModel.clear RegModel.wr RegModel.cls
   QStatic.error_pop_release QStatic.error_clear
   ErrQueue.push ErrQueue.pop ErrQueue.clear
